@@ -1,5 +1,6 @@
 """C01 — propagated position/velocity conform to the published SGP4 near-earth model."""
 import datetime as dt
+import warnings
 import math
 import os
 
@@ -47,7 +48,13 @@ def gen_cases(ctx, n):
     cases = [(l1, l2) for (_, l1, l2) in tlegen.REAL_TLES]
     regimes = ["near"] * 5 + ["leo"] * 3 + ["any"] * 2
     while len(cases) < n:
-        if ctx.rng.random() < 0.12:
+        if ctx.rng.random() < 0.05:
+            # "any B*": a drag term printed with a POSITIVE exponent (|B*| >= 1) on an orbit high enough to stay accepted
+            ov = {"mmotion": "%11.8f" % ctx.rng.uniform(11.0, 12.6), "ecc": "%07d" % ctx.rng.randrange(1000, 200000),
+                  "bstar": ctx.rng.choice([" ", "-", "+"]) + "%05d" % ctx.rng.randrange(10000, 99999) + "+" + ctx.rng.choice("112")}
+            _, l1, l2 = tlegen.random_tle(ctx.rng, "near", overrides=ov)
+            ctx.bump("threshold_family", "bstar_positive_exponent")
+        elif ctx.rng.random() < 0.12:
             # element sets hugging the 220 km / 225 min (and 156 / 98 km) thresholds: which branch answers, if any
             ov, kind = tlegen.threshold_fields(ctx.rng)
             _, l1, l2 = tlegen.random_tle(ctx.rng, "near", overrides=ov)
@@ -131,6 +138,18 @@ def correspond_time(ctx):
         ts = float((dt2np(pyt) - epoch) / np.timedelta64(1, "m"))
         lines.append("tsince us %d %d" % (t_us, epoch_us))
         exp.append(("datetime", t_us, epoch_us, ts))
+        # the same instant as a time-zone-aware datetime (UTC and another offset): numpy converts it to UTC
+        off_min = ctx.rng.choice([0, 60, -480, 330, 765])
+        try:
+            aware = pyt.replace(tzinfo=dt.timezone.utc).astimezone(dt.timezone(dt.timedelta(minutes=off_min)))
+        except (OverflowError, ValueError):
+            aware = None
+        if aware is not None:
+            with warnings.catch_warnings():
+                warnings.simplefilter("ignore")
+                ts = float((dt2np(aware) - epoch) / np.timedelta64(1, "m"))
+            lines.append("tsince us %d %d" % (t_us, epoch_us))
+            exp.append(("aware%+d" % off_min, t_us, epoch_us, ts))
     outs = drv.run(lines)
     for (unit, ticks, ep, ts), o in zip(exp, outs):
         ctx.count("eval_corr_time")
